@@ -144,8 +144,14 @@ def check_symfile(text: str, prog: progen.Prog, twin: dict[str, Any], timg: ipsr
         twin_labels.setdefault(name, []).append(value)
     table = progen.decode_label_table(prog, timg) or {}
     bare_table = {k.split(".")[-1]: v for k, v in table.items()}
+    static = progen.static_label_counts(prog)
+    only_outside = {n for n in prog.symfile_label_names() if all(m is None and o for nn, o, m in prog.label_sites if nn == n)}
     for name in prog.symfile_label_names():
         values = twin_labels.get(name, [])
+        if name in only_outside and name in static and len(values) != static[name]:
+            # known from the program text alone: this many assembled definitions outside loops and macros
+            problems.append(("label_definitions_lost", f"label {name} is defined {static[name]} time(s) by assembled statements outside loops and macro bodies, but get_all_labels() reports {len(values)} and the symbol file has {len(lines.get(name, []))} line(s)"))
+            continue
         if len(values) == 1 and name in bare_table and bare_table[name] != values[0] & 0xFFFFFF:
             problems.append(("label_value", f"label {name}: get_all_labels() says {values[0]:#x} but '.dl {name}' emitted {bare_table[name]:#x}"))
             continue
@@ -337,7 +343,10 @@ def shrink_candidates(case: dict[str, Any]) -> Iterator[dict[str, Any]]:
         c["prog"] = p.to_record()
         yield c
     if prog.defines:
+        text = b"\n".join(prog.source_files().values()).decode("utf-8", "replace")
         for i in range(len(prog.defines)):
+            if prog.defines[i][0] in text:
+                continue  # still referenced: dropping it would change which statements are assembled
             p = progen.clone(prog)
             p.defines = prog.defines[:i] + prog.defines[i + 1 :]
             c = dict(case)
